@@ -15,6 +15,10 @@ def languages(thorough):
     L.append(('expr_atoms', dict(Start=0, MaxTok=6 if thorough else 5, IfOps=['implies'], OrOps=[], AndOps=['and'],
                                  RelOps=['=', 'in'], AddOps=['-'], MulOps=[], PowOps=['**'], Nums=['1', '1.5'],
                                  Consts=['PI', 'INF'], Parens=False)))
+    # explicit parentheses around same-level operands: both nestings of every pair of binary operators
+    L.append(('expr_paren', dict(Start=0, MaxTok=7, IfOps=['iff'], OrOps=['or'], AndOps=['and'], NotOps=[], Quants=[],
+                                 RelOps=[], AddOps=['+', '-'], MulOps=['*'], PowOps=['**'], NegOps=[], Parens=True, Bools=[], Strs=[],
+                                 Nums=[], Consts=[], CallFuns=[], SetLens=[], RangeL=[], RangeR=[], Names=['a', 'b'], Vars=[], Fields=[], QVars=[])))
     L.append(('pred', dict(Start=26, MaxTok=9 if thorough else 8, Quants=['forall'], IfOps=['iff'], OrOps=['or'], AndOps=[],
                            RelOps=['<'], AddOps=['+'], MulOps=['/'], PowOps=[], NegOps=[], Strs=[], Consts=[],
                            RangeL=['['], RangeR=[']!'], CallFuns=['len'], SetLens=[1], Fields=[])))
